@@ -319,8 +319,73 @@ class HybridsH(Harness):
         return HybridExec(cfg)
 
 
-HARNESSES = {'afifo': AFifoH, 'aserver': AServer, 'hybrids': HybridsH}
-PLAN = {'quick': ['afifo', 'aserver', 'hybrids'], 'thorough': ['afifo', 'aserver', 'hybrids']}
+class OpaqueExec(Exec):
+    """the sync/async adapters and AsyncStream.buffer carry their elements untouched, whatever the elements are - in
+    particular elements whose == is element-wise (answers with a list, or with something that refuses to be a truth value),
+    as Stream.buffer does for the same input (C03, input 'opaque')"""
+
+    def __init__(self, cfg):
+        self.cfg = cfg
+
+    def body(self):
+        from mpservice.streamer._streamer_async import AsyncIter, AsyncStream, SyncIter
+        from .c03 import Arr, Vec
+        xs = [Vec([1, 2]), Arr([3, 4]), Vec([]), 'plain']
+        pipe = self.cfg['pipe']
+        out = []
+
+        async def src():
+            for x in xs:
+                yield x
+
+        if pipe == 'synciter':
+            try:
+                for z in SyncIter(src()):
+                    out.append(z)
+            except Exception as e:
+                out.append(('RAISED', type(e).__name__))
+        else:
+            async def main():
+                try:
+                    if pipe == 'asynciter':
+                        it = AsyncIter(iter(xs))
+                    else:
+                        it = AsyncStream(src()).buffer(self.cfg['m'])
+                    async for z in it:
+                        out.append(z)
+                except Exception as e:
+                    out.append(('RAISED', type(e).__name__))
+            asyncio.run(main())
+        return [next((i for i, x in enumerate(xs) if x is z), repr(z)) for z in out]
+
+    def verdict(self, r):
+        v = default_verdict(r)
+        if v:
+            return v
+        if r.value != [0, 1, 2, 3]:
+            return ('opaque-elements-not-carried-through:' + self.cfg['pipe'],
+                    f'{self.cfg}: delivered the input elements {r.value}, expected all four in order')
+        return None
+
+
+class OpaqueH(Harness):
+    name = 'opaque'
+    opts = dict(max_points=8000, timers='free', max_timer_fires=2000)
+
+    def setup(self):
+        vloop.install()
+        return []
+
+    def configs(self, tier):
+        return [dict(pipe='synciter', bound=0), dict(pipe='asynciter', bound=0),
+                dict(pipe='abuffer', m=1, bound=0), dict(pipe='abuffer', m=3, bound=0)]
+
+    def new(self, cfg):
+        return OpaqueExec(cfg)
+
+
+HARNESSES = {'afifo': AFifoH, 'aserver': AServer, 'hybrids': HybridsH, 'opaque': OpaqueH}
+PLAN = {'quick': ['afifo', 'aserver', 'hybrids', 'opaque'], 'thorough': ['afifo', 'aserver', 'hybrids', 'opaque']}
 RULE = ('complete enumeration of duration vectors x failing position x rejected position x capacity x flags; each case '
         'runs the real async code on a virtual event loop and the real sync code; non-trivial = durations not all equal '
         'or a failure/rejection present')
